@@ -652,7 +652,7 @@ pub fn settle_violation(
     key_of: &dyn Fn(&str, &Value) -> String,
 ) -> Violation {
     let (okey, detail, replay) = case.violation.clone().unwrap();
-    if okey.starts_with("native") {
+    if okey.starts_with("native") || okey.starts_with("machine") {
         // found under an OS-decided thread schedule: the replay re-runs the same seeded
         // workload (several attempts) but by its nature may not fail again
         return Violation {
